@@ -172,7 +172,9 @@ def u_roundtrip(W, sk):
             shutil.rmtree(d_, ignore_errors=True)
         steps.append("CSV text round trip")
     W.inputs["transformations"] = steps
+    g0 = g.copy(deep=True)
     back = W.call(lambda: FlodymArray.from_df(dims=dims, df=g, allow_missing_values=sparse))
+    W.prove("from_df.given_table_unchanged", same_frame(g, g0), detail=f"after {steps}: columns {list(g0.columns)} -> {list(g.columns)}, dtypes {[str(t) for t in g0.dtypes]} -> {[str(t) for t in g.dtypes]}")
     W.prove("from_df.returns", back.kind == "return", detail=f"{back!r} after {steps}")
     if back.kind != "return":
         return
@@ -180,6 +182,20 @@ def u_roundtrip(W, sk):
     W.prove("from_df.identical_array", y.dims.letters == x.dims.letters and y.values.shape == x.values.shape and bool(np.allclose(y.values, x.values, rtol=0, atol=1e-12)), detail=f"after {steps}")
     SL.check_wf(W, "from_df.result", y)
     W.prove("from_df.source_unchanged", bool(np.array_equal(x.values, snap)))
+
+
+def same_frame(a, b):
+    """the caller's DataFrame is exactly as it was: same columns, index, dtypes and cells"""
+    try:
+        return (
+            list(a.columns) == list(b.columns)
+            and list(a.index.names) == list(b.index.names)
+            and [str(t) for t in a.dtypes] == [str(t) for t in b.dtypes]
+            and a.index.equals(b.index)
+            and a.equals(b)
+        )
+    except Exception:
+        return False
 
 
 def long_table(x):
@@ -288,13 +304,16 @@ def u_faults(W, sk):
         W.inputs["headers"] = "dimension letters"
     W.inputs["table"] = df.astype(str).values.tolist()
     via = sk["via"]
+    df0 = df.copy(deep=True)
     if via == "from_df":
         out = W.call(lambda: FlodymArray.from_df(dims=dims, df=df, allow_missing_values=am, allow_extra_values=ae))
         got = out.value.values if out.kind == "return" else None
+        W.prove("given_table_unchanged", same_frame(df, df0), detail=f"columns {list(df0.columns)} -> {list(df.columns)}")
     elif via == "set_values_from_df":
         target = FlodymArray(dims=dims, values=np.full(dims.shape, -7.5))
         out = W.call(lambda: target.set_values_from_df(df, allow_missing_values=am, allow_extra_values=ae))
         got = target.values if out.kind == "return" else None
+        W.prove("given_table_unchanged", same_frame(df, df0), detail=f"columns {list(df0.columns)} -> {list(df.columns)}")
         if out.kind == "raise":
             W.prove("refused_import_leaves_the_array_untouched", target.values.shape == dims.shape and bool(np.all(target.values == -7.5)))
     else:
@@ -317,6 +336,123 @@ def u_faults(W, sk):
         W.prove(f"fault[{fault}].accepted_with_flag", out.kind == "return", detail=f"{out!r} flags missing={am} extra={ae}")
         if out.kind == "return":
             W.prove(f"fault[{fault}].every_present_entry_under_its_labels_missing_ones_zero", got.shape == want.shape and bool(np.allclose(got, want, rtol=0, atol=1e-12)))
+
+
+# ----------------------------------------------------------------------------------------
+# the long-format export, proved over the row-level contracts of the five pandas operations it uses
+
+
+def sk_to_df(tier):
+    out = []
+    for k in (1, 2, 3) + ((4,) if tier == "thorough" else ()):
+        for index in (True, False):
+            for sparse in (False, True):
+                out.append({"ndim": k, "index": index, "sparse": sparse})
+    return out
+
+
+@unit(
+    "tables.to_df_long",
+    props=["C11", "C04", "C19"],
+    targets=["flodym.flodym_arrays.FlodymArray.to_df"],
+    skeletons=sk_to_df,
+    stubs=["pandas.MultiIndex.from_product", "pandas.MultiIndex.from_arrays", "pandas.DataFrame", "pandas.DataFrame.set_index", "pandas.DataFrame.reset_index", "numpy.ndarray.flatten", "numpy.nonzero"],
+    note="long format (no dim_to_columns), index or columns, dense or sparse, symbolic sizes and values, any storage order of the values: one row per entry (sparse: per non-zero entry), each row carries the items of its entry's position under the dimension names in order and the entry in 'value'. flatten() and from_product are the same C-order enumeration of the index tuples when their extents agree (contract COrder); nonzero enumerates exactly the non-zero positions (contract SelOrder). Wide format (pivot) stays bounded.",
+)
+def u_to_df_long(W, sk):
+    from .arrays import mk_dims
+
+    letters = "abcd"[: sk["ndim"]]
+    if not W.symbolic:
+        dims = make_dims(W, sk["ndim"]) if sk["ndim"] else None
+        if dims is None:
+            from flodym.dimensions import DimensionSet
+
+            dims = DimensionSet(dim_list=[])
+        x = make_array(W, dims, zeros=0.4 if sk["sparse"] else 0.0)
+        out = W.call(lambda: x.to_df(index=sk["index"], sparse=sk["sparse"]))
+        W.prove("to_df.returns", out.kind == "return", detail=repr(out))
+        if out.kind == "return":
+            df = out.value
+            names = list(x.dims.names)
+            if sk["index"]:
+                W.prove("to_df.layout", list(df.columns) == ["value"] and [n for n in df.index.names if n is not None] == names, detail=f"{list(df.columns)} / {list(df.index.names)}")
+            else:
+                W.prove("to_df.layout", list(df.columns) == names + ["value"], detail=str(list(df.columns)))
+            check_listing(W, "to_df", x, df, sk["sparse"])
+        return
+    import z3
+    import flodym.flodym_arrays as fa
+    from fvc import core, symtable, symnp
+    from fvc.core import to_int, to_real, wrap
+
+    D = mk_dims(W, letters)
+    dims = [D[l] for l in letters]
+    x = W.array("x", dims)
+    X = SL.lab(W, x)
+    snaps = SL.snapshot(W, [x])
+    out = W.call(lambda: x.to_df(index=sk["index"], sparse=sk["sparse"]), stubs=[(fa, "pd", symtable.FakePandas())])
+    W.prove("to_df.returns", out.kind == "return", detail=repr(out))
+    SL.check_unchanged(W, "to_df.source", snaps)
+    if out.kind != "return":
+        return
+    T = out.value
+    W.prove("to_df.returns_table", isinstance(T, symtable.SymTable), detail=type(T).__name__)
+    if not isinstance(T, symtable.SymTable):
+        return
+    names = [d.name for d in dims]
+    if sk["index"]:
+        W.prove("to_df.layout", list(T.index_cols) == names and list(T.cols) == ["value"], detail=f"index levels {list(T.index_cols)}, columns {list(T.cols)}")
+        lab = T.index_cols
+    else:
+        W.prove("to_df.layout", list(T.cols) == names + ["value"] and not T.index_cols, detail=f"index levels {list(T.index_cols)}, columns {list(T.cols)}")
+        lab = T.cols
+    if any(n not in lab for n in names) or "value" not in T.cols:
+        return
+    val = T.cols["value"]
+    sizes = [W.size_of(d) for d in dims]
+    entry = lambda idx: X.at(dict(zip(letters, idx)))
+    if not sk["sparse"]:
+        co = symnp.corder_of(list(x.values.shape))
+        W.prove("to_df.one_row_per_entry", W.size_eq(T.rows.n, co.N), detail="number of rows = number of index tuples")
+        r = W.fresh_int("row", 0, co.N)
+        pos = tuple(wrap(co.dec_expr(d, r)) for d in range(len(dims)))
+        for d, dm in enumerate(dims):
+            W.prove(f"to_df.row_labels[{d}]", wrap(lab[dm.name].at(r) == dm.items.at_expr(pos[d])), detail="row r carries the items of the r-th index tuple (C order)")
+        W.prove("to_df.row_value", W.num_eq(wrap(val.at(r)), entry(pos)), detail="row r carries the entry of the r-th index tuple")
+        idx = tuple(W.fresh_int(f"i{d}", 0, n) for d, n in enumerate(sizes))
+        r2 = wrap(co.enc_expr(idx))
+        W.prove("to_df.entry_has_row.in_range", wrap(z3.And(to_int(r2) >= 0, to_int(r2) < to_int(T.rows.n))))
+        for d, dm in enumerate(dims):
+            W.prove(f"to_df.entry_has_row.labels[{d}]", wrap(lab[dm.name].at(r2) == dm.items.at_expr(idx[d])))
+        W.prove("to_df.entry_has_row.value", W.num_eq(wrap(val.at(r2)), entry(idx)))
+        if dims:
+            ra, rb = W.fresh_int("ra", 0, co.N), W.fresh_int("rb", 0, co.N)
+            W.c.assume(to_int(ra) != to_int(rb))
+            W.prove("to_df.rows_carry_distinct_label_combinations", wrap(z3.Or(*[lab[dm.name].at(ra) != lab[dm.name].at(rb) for dm in dims])), detail="no entry listed twice")
+        return
+    # sparse: exactly the non-zero entries
+    sos = W.c.__dict__.get("_selorders", [])
+    W.prove("to_df.sparse.selection_contract_used", len(sos) == 1, detail=f"{len(sos)} calls of nonzero/argwhere")
+    if len(sos) != 1:
+        return
+    so = sos[0]
+    r = W.fresh_int("row", 0, T.rows.n)
+    pos = tuple(wrap(dm.items._pos(lab[dm.name].at(r))) for dm in dims)
+    for d, dm in enumerate(dims):
+        W.prove(f"to_df.sparse.row_labels_are_items[{d}]", wrap(dm.items.contains_expr(lab[dm.name].at(r))))
+    W.prove("to_df.sparse.row_value", W.num_eq(wrap(val.at(r)), entry(pos)), detail="row carries the entry found under its labels")
+    W.prove("to_df.sparse.rows_are_nonzero", wrap(to_real(val.at(r)) != 0))
+    ra, rb = W.fresh_int("ra", 0, T.rows.n), W.fresh_int("rb", 0, T.rows.n)
+    W.c.assume(to_int(ra) != to_int(rb))
+    W.prove("to_df.sparse.rows_carry_distinct_label_combinations", wrap(z3.Or(*[lab[dm.name].at(ra) != lab[dm.name].at(rb) for dm in dims])))
+    idx = tuple(W.fresh_int(f"i{d}", 0, n) for d, n in enumerate(sizes))
+    if bool(wrap(to_real(entry(idx)) != 0)):
+        r2 = wrap(so.row_of(idx))
+        W.prove("to_df.sparse.nonzero_entry_has_row.in_range", wrap(z3.And(to_int(r2) >= 0, to_int(r2) < to_int(T.rows.n))))
+        for d, dm in enumerate(dims):
+            W.prove(f"to_df.sparse.nonzero_entry_has_row.labels[{d}]", wrap(lab[dm.name].at(r2) == dm.items.at_expr(idx[d])))
+        W.prove("to_df.sparse.nonzero_entry_has_row.value", W.num_eq(wrap(val.at(r2)), entry(idx)))
 
 
 # ----------------------------------------------------------------------------------------
